@@ -211,3 +211,71 @@ fn cover_cssbuf(style: Style) {
     kani::cover!(b.indent == 128);
 }
 
+
+// ---- C07: "compressed output has no line break": `Property::write`
+// (css/rule.rs), the complete body extracted unchanged, run on the REAL
+// CssBuf; the declaration's value is a stand-in whose `format(..)
+// .to_string()` gives a text chosen by the harness (the real rendering goes
+// through core::fmt, out of CBMC's reach).  The stand-in has the real
+// Value's shape as far as a writer can see it (a `Literal` with `quotes()`,
+// and other kinds). ----
+pub(crate) mod declaration {
+    use crate::output::{CssBuf, Format};
+    use crate::value::Quotes;
+    pub struct Lit(pub Quotes);
+    impl Lit {
+        pub fn quotes(&self) -> Quotes {
+            self.0
+        }
+    }
+    pub enum Value {
+        Literal(Lit),
+        /// any other kind (a list, say)
+        Other,
+    }
+    pub struct Formatted(&'static str);
+    impl Formatted {
+        #[allow(clippy::inherent_to_string)]
+        pub fn to_string(&self) -> String {
+            String::from(self.0)
+        }
+    }
+    impl Value {
+        /// the rendered text always contains a raw line break here
+        pub fn format(&self, _format: Format) -> Formatted {
+            Formatted("a\nb")
+        }
+    }
+    pub struct Property {
+        pub name: String,
+        pub value: Value,
+    }
+    impl Property {
+//@range file=rsass/src/css/rule.rs impl="impl Property" fn=write
+//@  header: pub fn write(&self, buf: &mut CssBuf)
+//@end
+    }
+}
+fn declaration_case(style: Style, value: declaration::Value) -> Vec<u8> {
+    let mut buf = CssBuf::new(Format { style, precision: 5 });
+    declaration::Property { name: String::from("n"), value }.write(&mut buf);
+    buf.take()
+}
+/// C07: a declaration is written on ONE line whatever kind of value renders
+/// to a text with a line break in it (compressed: no line break at all;
+/// expanded: only the one that ends the declaration).
+#[kani::proof]
+#[kani::stub(crate::output::format::long_indent, crate::output::format::kani_verif::long_indent_by_contract)]
+#[kani::unwind(10)]
+fn c07_declaration_value_has_no_line_break_compressed() {
+    use crate::value::Quotes;
+    assert!(declaration_case(Style::Compressed, declaration::Value::Other) == b"n:a b;", "compressed, a list (say): n:a b;");
+    assert!(declaration_case(Style::Compressed, declaration::Value::Literal(declaration::Lit(Quotes::None))) == b"n:a b;", "compressed, an unquoted string");
+    assert!(declaration_case(Style::Compressed, declaration::Value::Literal(declaration::Lit(Quotes::Double))) == b"n:a b;", "compressed, a quoted string");
+}
+#[kani::proof]
+#[kani::stub(crate::output::format::long_indent, crate::output::format::kani_verif::long_indent_by_contract)]
+#[kani::unwind(10)]
+fn c07_declaration_value_has_no_line_break_expanded() {
+    assert!(declaration_case(Style::Expanded, declaration::Value::Other) == b"n: a b;\n", "expanded: n: a b; and the newline that ends it");
+}
